@@ -21,7 +21,8 @@ RULE = (
     "another object's bytes (rename, new inode), empty} and intact controls {none, touch, chmod-only} x state "
     "entry {StateNoop, wiped, warm (re-hashed after the change), stale (row from before the change)} x store "
     "class {Local, Base} x query {check, oids_exist, checkout without and with a state, add(verify=True) with an honest and a corrupt "
-    "source}; the re-checkout product: checkout of the object (file target without/with a state, or a directory "
+    "source}; the same product (without checkout) for a .dir-suffixed id whose intact controls are left "
+    "unprotected (0o644) so that they are really hashed; the re-checkout product: checkout of the object (file target without/with a state, or a directory "
     "target listing it) while intact, then the change, then the same checkout again on the same store directory - "
     "with the same odb object and with a re-created one; plus seeded random histories (6-14 steps) over add/check/oids_exist/checkout/tamper (also "
     "keeping 0o444, other modes, mtime-restoring)/plant under a wrong name/delete/hash/foreign state row/"
@@ -570,6 +571,32 @@ def product_cases(full=True):
                         ops += [["add", True, [[T, 0], [O, 4]]], ["check", T]]
                     out.append({"cls": cls, "state": entry != "noop", "verify": False, "ops": ops,
                                 "tag": f"{pattern}/{entry}/{query}"})
+    # directory objects (.dir-suffixed ids: the name carries a suffix the digest does not): intact
+    # controls and tampers x state regimes x classes x {check, oids_exist, add(verify)}; the controls
+    # leave the object NOT write-protected so that it really gets hashed in the cold/stale regimes
+    TD = [0, ".dir"]
+    dchanges = [("none", None), ("touch", 0o644), ("chmod", 0o644), ("append", 0o644), ("replace", 0o644),
+                ("truncate", 0o644), ("rewrite", 0o644), ("empty", 0o644)]
+    for cls in ("local", "base"):
+        for pattern, mode in (dchanges if full else dchanges[:5]):
+            for entry in (("noop", "wiped", "warm", "stale") if full else ("noop", "wiped", "stale")):
+                for query in ("check", "exist", "addverify"):
+                    ops = [["add", None, [[TD, 0], [B, 1]]]]
+                    if pattern != "none":
+                        ops.append(["tamper", TD, pattern, mode, 3])
+                    if entry == "wiped":
+                        ops.append(["dropstate"])
+                    elif entry == "warm":
+                        ops.append(["hash", TD])
+                    if query == "check":
+                        ops += [["check", TD], ["check", B], ["check", TD]]
+                    elif query == "exist":
+                        ops += [["exist", [B, TD, [-1, ".dir"]]], ["exist", [TD]]]
+                    else:
+                        ops += [["add", True, [[TD, 0], [[3, ".dir"], 3], [[4, ".dir"], 1]]], ["check", TD],
+                                ["exist", [TD, [3, ".dir"], [4, ".dir"]]]]
+                    out.append({"cls": cls, "state": entry != "noop", "verify": False, "ops": ops,
+                                "tag": f"dir:{pattern}/{entry}/{query}"})
     # checkout while intact, then the change, then checkout again: same oid, same store directory,
     # with the same odb object and with a re-created one; file targets and directory targets
     DIR = [["t", T], ["b", B]]
